@@ -1,4 +1,6 @@
 import MM.Props.C19
+import MM.Props.Outliers
+import MM.Props.OutliersTie
 
 #print axioms MM.Screen.C19_data
 #print axioms MM.Screen.C19_analysis
@@ -9,3 +11,10 @@ import MM.Props.C19
 #print axioms MM.Screen.C19_totals_split
 #print axioms MM.Screen.C19_perm_invariant
 #print axioms MM.Screen.C19_total_fn
+#print axioms MM.Outliers.step_progress
+#print axioms MM.Outliers.loop_terminates
+#print axioms MM.Outliers.loop_reports_dates
+#print axioms MM.Outliers.perfectFit_sound
+#print axioms MM.Outliers.original_does_not_terminate
+#print axioms MM.Outliers.repaired_stops_on_perfectFit
+#print axioms MM.Outliers.tie_outlier_loop
